@@ -28,6 +28,7 @@ RejectExp     == [panic |-> FALSE, capdiff |-> FALSE, err |-> TRUE, decrypts |->
 PlainExp      == [panic |-> FALSE, capdiff |-> FALSE, decrypts |-> 0, macs |-> 0]
 UnprotectStep(prop, sa, role, wire, mode, exp) ==
   Step("unprotect", prop, FALSE, [sa |-> sa, role |-> role, wire |-> wire, hdrmode |-> mode, caps |-> FALSE], exp)
+OptStep(st) == st @@ [opt |-> TRUE]
 UnprotectCaps(prop, sa, role, wire, mode, exp) ==
   Step("unprotect", prop, FALSE, [sa |-> sa, role |-> role, wire |-> wire, hdrmode |-> mode, caps |-> TRUE], exp)
 =============================================================================
